@@ -33,7 +33,8 @@ PrefixLib == <<
   <<"ATE","LB","W1","CM","W2","EQ","W1","RB","NL","ATE","LB","W1","CM">>,
   <<"ATS","LB","W1","EQ","W2","RB","NL","ATE","LB","W2","CM","W1","EQ">>,
   <<"ATC","LB","W1","RB","NL","W2","NL">>, <<"ATE","LB","W1","CM","W2","EQ","W1","NL">>,
-  <<"ATE","LB","W1","CM","NL","W2","EQ","LB","NL">>
+  <<"ATE","LB","W1","CM","NL","W2","EQ","LB","NL">>,
+  <<"ATE","LB","W1","CM","EQ","W1","CM">>, <<"ATS","LB","EQ">>, <<"ATE","LB","CM">>
 >>
 WClass == {"W1", "W2", "WA", "WB"}
 
